@@ -4,6 +4,7 @@
 -/
 import BurrowVerif.Proofs.Notifier
 import BurrowVerif.Proofs.NotifierReminder
+import BurrowVerif.Proofs.NotifierConf
 
 namespace Burrow.Props.C14
 open Burrow Burrow.Notifier Burrow.Spec.Notifier
@@ -83,5 +84,38 @@ theorem reminder_when_interval_elapsed (cfgs : List ModuleCfg) (hn : NamesNodup 
 private def m2 : ModuleCfg := { name := "m", threshold := 2, sendInterval := 5, sendOnce := false, sendClose := false }
 example : (runG [m2] GroupRec.fresh [ev .err 10000 1, ev .err 12000 2, ev .err 16000 3]).map (·.length) = [1, 0, 1] := by
   decide
+
+
+/-! ### the configuration phase: which settings the theorems above are about
+
+`ModSpec` is a `[notifier.<name>]` table as the operator wrote it, `ModSpec.cfg` what `notifyModule` reads
+after the real `Configure` (tied by the `N conf` ops of the notifier stream, which run it).  The model
+of the phase is a map over the tables: a module's settings and lists are a function of its own table,
+whatever other modules are configured and in whatever order Go walks them. -/
+
+/-- a module that sets no `send-interval` is limited by its own `interval` (60 s when that is not set
+    either); its threshold is 2 unless set; send-once and send-close are off unless set -/
+theorem defaults_are_the_documented_ones (m : ModSpec) :
+    (m.sendInterval = none → m.cfg.sendInterval = m.interval.getD 60) ∧
+    (m.threshold = none → m.cfg.threshold = 2) ∧
+    (m.sendOnce = none → m.cfg.sendOnce = false) ∧ (m.sendClose = none → m.cfg.sendClose = false) ∧
+    (∀ v, m.sendInterval = some v → m.cfg.sendInterval = v) ∧ (∀ v, m.threshold = some v → m.cfg.threshold = v) := by
+  refine ⟨?_, ?_, ?_, ?_, ?_, ?_⟩
+  · intro h; simp [ModSpec.cfg, ModSpec.intervalEff, h]
+  · intro h; simp [ModSpec.cfg, h]
+  · intro h; simp [ModSpec.cfg, h]
+  · intro h; simp [ModSpec.cfg, h]
+  · intro v h; simp [ModSpec.cfg, h]
+  · intro v h; simp [ModSpec.cfg, h]
+
+/-- evaluation requests are paced by the shortest module interval: no longer than any module's, and
+    the interval of one of the modules -/
+theorem pace_is_the_shortest_interval (ms : List ModSpec) (hne : ms ≠ []) :
+    (∀ m ∈ ms, minIntervalOf ms ≤ m.intervalEff) ∧ ∃ m ∈ ms, minIntervalOf ms = m.intervalEff :=
+  ⟨fun m hm => minIntervalOf_le ms m hm, minIntervalOf_mem ms hne⟩
+
+example : minIntervalOf [⟨"a", none, some 30, none, none, none, none, none⟩, ⟨"b", none, none, some 5, none, none, none, none⟩] = 30 ∧
+    (⟨"b", none, none, some 5, none, none, none, none⟩ : ModSpec).cfg = ⟨"b", 2, 5, false, false⟩ ∧
+    (⟨"a", none, some 30, none, none, none, none, none⟩ : ModSpec).cfg = ⟨"a", 2, 30, false, false⟩ := by decide
 
 end Burrow.Props.C14
